@@ -97,6 +97,9 @@ func runC05(p *Program, r *Report) {
 	// an error context that keeps a delimiter, an attribute or an element is taken for a live context by the
 	// text scanner at the next closing quote or end tag, and the failure is forgotten
 	checkErrorContextsCanonical(p, r, "C05.R10")
+	// branches that end in different contexts must fail to join: a context still before an attribute value is not
+	// nudged into an unquoted value
+	checkJoinNudge(p, r, "C05.R11")
 	// ---- R1 / R5: package-level escapeTemplate ------------------------------------
 	et := p.Func("template", "escapeTemplate")
 	if et == nil {
